@@ -1,5 +1,5 @@
 // C11 harness: Find_Minimum / Find_Maximum and Minimization::minimize with recorded evaluation traces (case grammar: checks/C11.py);
-// seq = several calls in one process on shared objects, nest = the objective of a minimisation runs a minimisation itself
+// seq = several calls in one process on shared objects (arguments may be the objects' own public members), nest = the objective of a minimisation runs a minimisation itself
 #include "common.hpp"
 #include "libphysica/Numerics.hpp"
 using namespace libphysica;
@@ -69,8 +69,150 @@ struct NmCall
 		return m.minimize(sc, delta, g);
 	}
 };
+// a vector argument of minimize that may BE a public member of one of the objects (all overloads take non-const references):
+//   g <list>            a vector of the caller
+//   r <k> <i> <byref>   objs[k].current_simplex[i]  (byref = 1: the member itself is passed, 0: a copy of it)
+//   y <k> <byref>       objs[k].y
+struct VSrc
+{
+	char kind = 'g';
+	std::vector<double> given;
+	long k = 0, i = 0, byref = 0;
+	void read(vh::Reader& r)
+	{
+		std::string w = r.word();
+		kind		  = w.empty() ? '?' : w[0];
+		if(kind == 'g')
+			given = r.list();
+		else if(kind == 'r')
+		{
+			k	  = r.integer();
+			i	  = r.integer();
+			byref = r.integer();
+		}
+		else if(kind == 'y')
+		{
+			k	  = r.integer();
+			byref = r.integer();
+		}
+		else
+		{
+			fprintf(stderr, "harness: bad vector source\n");
+			_exit(77);
+		}
+	}
+	std::vector<double>& member(std::vector<std::unique_ptr<Minimization>>& objs)
+	{
+		Minimization& m = *objs.at(k);
+		return kind == 'r' ? m.current_simplex.at(i) : m.y;
+	}
+	std::vector<double> value(std::vector<std::unique_ptr<Minimization>>& objs) { return kind == 'g' ? given : member(objs); }
+	// the object to pass: the member itself, or the local holder filled with the value
+	std::vector<double>& ref(std::vector<std::unique_ptr<Minimization>>& objs, std::vector<double>& holder)
+	{
+		if(kind != 'g' && byref)
+			return member(objs);
+		holder = value(objs);
+		return holder;
+	}
+};
+// one request of a seq run; kinds nm | nmd | nm1 (arguments of the caller) and
+//   nmS <k> <byref>        minimize(objs[k].current_simplex, f)   (k = the called object: the restart from the reported simplex)
+//   nm1R <vsrc> <delta>    minimize(<vsrc>, delta, f)
+//   nmdR <vsrc> <dsrc>     minimize(<vsrc>, <dsrc>, f),  dsrc = <vsrc> | s (the very vector passed as the starting point)
+struct SeqReq
+{
+	std::string kind;
+	NmCall plain;
+	long k = 0, byref = 0;
+	VSrc st, ds;
+	bool ds_is_start = false;
+	double delta	 = 0;
+	// the values of the arguments when the call starts
+	std::vector<std::vector<double>> pp_val;
+	std::vector<double> st_val, ds_val;
+	void read(const std::string& kd, vh::Reader& r)
+	{
+		kind = kd;
+		if(kind == "nmS")
+		{
+			k	  = r.integer();
+			byref = r.integer();
+		}
+		else if(kind == "nm1R")
+		{
+			st.read(r);
+			delta = r.num();
+		}
+		else if(kind == "nmdR")
+		{
+			st.read(r);
+			if(r.more() && r.t[r.i] == "s")
+			{
+				r.word();
+				ds_is_start = true;
+			}
+			else
+				ds.read(r);
+		}
+		else
+			plain.read(kind, r);
+	}
+	void capture(std::vector<std::unique_ptr<Minimization>>& objs)
+	{
+		if(kind == "nmS")
+			pp_val = objs.at(k)->current_simplex;
+		else if(kind == "nm1R" || kind == "nmdR")
+		{
+			st_val = st.value(objs);
+			if(kind == "nmdR")
+				ds_val = ds_is_start ? st_val : ds.value(objs);
+		}
+	}
+	// the call as requested (members passed by reference where the case says so)
+	std::vector<double> run(Minimization& m, std::vector<std::unique_ptr<Minimization>>& objs, std::function<double(std::vector<double>)> g)
+	{
+		if(kind == "nmS")
+		{
+			if(byref)
+				return m.minimize(objs.at(k)->current_simplex, g);
+			std::vector<std::vector<double>> pc = objs.at(k)->current_simplex;
+			return m.minimize(pc, g);
+		}
+		if(kind == "nm1R" || kind == "nmdR")
+		{
+			std::vector<double> hs, hd;
+			std::vector<double>& sref = st.ref(objs, hs);
+			if(kind == "nm1R")
+				return m.minimize(sref, delta, g);
+			std::vector<double>& dref = ds_is_start ? sref : ds.ref(objs, hd);
+			return m.minimize(sref, dref, g);
+		}
+		return plain.run(m, g);
+	}
+	// the same request on the captured values (for the fresh object)
+	std::vector<double> run_values(Minimization& m, std::function<double(std::vector<double>)> g)
+	{
+		if(kind == "nmS")
+		{
+			std::vector<std::vector<double>> pc = pp_val;
+			return m.minimize(pc, g);
+		}
+		if(kind == "nm1R")
+		{
+			std::vector<double> sc = st_val;
+			return m.minimize(sc, delta, g);
+		}
+		if(kind == "nmdR")
+		{
+			std::vector<double> sc = st_val, dc = ds_val;
+			return m.minimize(sc, dc, g);
+		}
+		return plain.run(m, g);
+	}
+};
 // seq: several calls in one process, on one or several Minimization objects (and 1-D calls in between); every Nelder-Mead call is
-// repeated on a fresh object and compared bit for bit (token `same`)
+// repeated on a fresh object (on the values its arguments had when the call started) and compared bit for bit (token `same`)
 static void handle_seq(vh::Reader& r, vh::Out& o)
 {
 	long nobj = r.integer();
@@ -106,7 +248,7 @@ static void handle_seq(vh::Reader& r, vh::Out& o)
 			o.i(same_d(res, res2) && same_v(first, trace) ? 1 : 0);
 			continue;
 		}
-		NmCall call;
+		SeqReq call;
 		call.read(kind, r);
 		auto e = vh::parse_fexpr(r);
 		std::vector<std::vector<double>> trace, trace2;
@@ -118,11 +260,12 @@ static void handle_seq(vh::Reader& r, vh::Out& o)
 			trace2.push_back(x);
 			return vh::eval_fexpr(*e, x.data());
 		};
-		Minimization& m			 = *objs.at(ob);
-		std::vector<double> pmin = call.run(m, g);
+		Minimization& m = *objs.at(ob);
+		call.capture(objs);
+		std::vector<double> pmin = call.run(m, objs, g);
 		put_min(o, m, pmin, trace);
 		Minimization fresh(ftols.at(ob));
-		std::vector<double> pmin2 = call.run(fresh, g2);
+		std::vector<double> pmin2 = call.run_values(fresh, g2);
 		bool same = same_v(pmin, pmin2) && same_d(m.fmin, fresh.fmin) && same_v(m.y, fresh.y) && same_t(m.current_simplex, fresh.current_simplex) && m.nfunc == fresh.nfunc && same_t(trace, trace2);
 		o.i(same ? 1 : 0);
 	}
